@@ -31,7 +31,8 @@ RULES = {
 }
 PROBES = ["control_transfers", "multi_packet_descriptor", "set_address_done", "line_coding_done", "stalled_requests", "stall_out_data_request",
           "bulk_out_acked", "bulk_out_naked", "bulk_out_duplicate", "bulk_in_packets", "bulk_in_zlp", "bulk_in_retransmitted",
-          "rx_backpressure_cycles", "tx_gap_cycles", "tx_stalled_packets", "status_ep_naks"]
+          "rx_backpressure_cycles", "tx_gap_cycles", "tx_stalled_packets", "status_ep_naks",
+          "clear_halt_in_pipe", "clear_halt_out_pipe", "clear_halt_other_pipe", "clear_halt_skipped_in_doubt"]
 META = {
     "components_real": ["USBSerialDevice", "ACMRequestHandlers", "StallOnlyRequestHandler", "USBDevice", "USBControlEndpoint",
                         "StandardRequestHandler", "GetDescriptorHandlerBlock", "USBStreamInEndpoint / USBInTransferManager",
@@ -108,8 +109,14 @@ def gen(rng, tier, index):
     enum = [e for e in enum if rng.random() < 0.8 or e["setup"][2:4] in ("05", "09")]
     others = []
     for _ in range(rng.randint(1, 5)):
-        k = rng.choice(["line_coding", "line_coding", "class_nodata", "class_in", "class_out", "vendor_nodata", "vendor_in", "vendor_out", "reserved"])
-        if k == "line_coding":
+        k = rng.choice(["line_coding", "line_coding", "class_nodata", "class_in", "class_out", "vendor_nodata", "vendor_in", "vendor_out", "reserved",
+                        "clear_halt", "clear_halt"])
+        if k == "clear_halt":
+            # standard CLEAR_FEATURE(ENDPOINT_HALT) naming one of the serial device's pipes (or one it does not have): the host
+            # restarts that pipe's data toggle, the other direction of the same endpoint number must be unaffected
+            others.append({"op": "control", "setup": _s(0x02, 1, 0, rng.choice([0x80 | DATA_EP, 0x80 | DATA_EP, DATA_EP, DATA_EP, 0x80 | STATUS_EP, 0x01]), 0).hex(),
+                           "clear_halt": True})
+        elif k == "line_coding":
             others.append({"op": "control", "setup": _s(0x21, 0x20, 0, 0, 7).hex(), "out": bytes(rng.getrandbits(8) for _ in range(7)).hex()})
         elif k == "class_nodata":
             others.append({"op": "control", "setup": _s(0x21, rng.choice([0x22, 0x23, 0x00, 0x21, 0xFF]), rng.getrandbits(16), 0, 0).hex()})
@@ -254,7 +261,7 @@ def run(scn):
     viol = Violations()
     probes = {p: 0 for p in PROBES}
     faults = {}
-    st = {"addr": 0, "out_toggle": 0, "in_toggle": 0}
+    st = {"addr": 0, "out_toggle": 0, "in_toggle": 0, "in_doubt": False}
     streams = _Streams(cfg)
     controls = []          # records of control transfers
     out_log = []           # (payload, acked, duplicate)
@@ -322,9 +329,11 @@ def run(scn):
                 probes["bulk_in_retransmitted"] += 1
             if lose == "ack_lost":
                 fault("lost_handshake")
+                st["in_doubt"] = True
                 yield from h.idle(gap + hs_gap)
             else:
                 yield from ack()
+                st["in_doubt"] = False
             return kind
 
         yield from h.idle(4)
@@ -357,6 +366,11 @@ def run(scn):
                     probes["bulk_out_naked"] += 1
             elif k == "control":
                 setup = bytes.fromhex(op["setup"])
+                if op.get("clear_halt") and setup[4] == (0x80 | DATA_EP) and st["in_doubt"]:
+                    # a host does not reset a pipe while a transaction on it is in doubt (its ACK was lost): the device would
+                    # legitimately repeat that packet with the restarted toggle
+                    probes["clear_halt_skipped_in_doubt"] += 1
+                    continue
                 out = bytes.fromhex(op.get("out", ""))
                 wlen = setup[6] | (setup[7] << 8)
                 dir_in = bool(setup[0] & 0x80)
@@ -410,6 +424,16 @@ def run(scn):
                         if setup[0] == 0x00 and setup[1] == 5:
                             st["addr"] = setup[2] & 0x7F
                             rec["addr_after"] = st["addr"]
+                        if op.get("clear_halt") and kind == "DATA1" and len(payload) == 0:
+                            # the request completed: the host restarts the data toggle of the pipe it named
+                            if setup[4] == (0x80 | DATA_EP):
+                                st["in_toggle"] = 0
+                                probes["clear_halt_in_pipe"] += 1
+                            elif setup[4] == DATA_EP:
+                                st["out_toggle"] = 0
+                                probes["clear_halt_out_pipe"] += 1
+                            else:
+                                probes["clear_halt_other_pipe"] += 1
                     rec["stalled"] = kind == "STALL"
             else:
                 raise ValueError(k)
